@@ -25,8 +25,10 @@ def ensure():
 
 def demo(features_all=True):
     f = "--no-default-features --features %s" % ALLF if features_all else ""
-    r = sh("cd %s && cargo test --offline %s --test seed_demo 2>&1 | tail -25" % (SCRATCH, f))
-    ok = "test result: ok" in r.stdout and "FAILED" not in r.stdout and "error" not in r.stdout.split("test result")[0][-2000:].lower().replace("errors", "")
+    r = sh("cd %s && cargo test --offline %s --test seed_demo 2>&1" % (SCRATCH, f))
+    # the exit status of cargo test decides; "running 0 tests" (a demo compiled away by cfg) does not count as a pass
+    ran = [int(x) for x in __import__("re").findall(r"running (\d+) tests?", r.stdout)]
+    ok = r.returncode == 0 and sum(ran) > 0
     return ok, r.stdout[-1500:]
 
 def run_checks(props, tier="quick"):
